@@ -108,7 +108,7 @@ def replay_behaviours(ctx, binp, path, label, roots, stats, limit=0, timeout=300
         roots[c] = r
         inv[r] = c
     for k in ("behaviours_replayed", "steps", "stages", "reopens", "code_cache_flushes", "stage_hits_on_known_content",
-              "build_storage_trie_calls", "committed_leaf_checks", "side_journal_checks", "blind_steps"):
+              "build_storage_trie_calls", "committed_leaf_checks", "side_journal_checks", "blind_steps", "sparse_steps"):
         stats[k] = stats.get(k, 0) + res[k]
     ctx.log("replayed %s: %d behaviours, %d steps, %d stages, %d distinct roots, %d violations" %
             (label, res["behaviours_replayed"], res["steps"], res["stages"], res["distinct_roots"], len(res["violations"] or [])))
